@@ -1,27 +1,143 @@
 /-
   tedriver — one request per input line, one response per output line.
-    fn <name> k=v …          → `ok <values>` | `err <Kind>` | `bad <message>`
+    fn <name> k=v …                    → `ok <values>` | `err <Kind>` | `bad <message>`
+    prog <Class> k=v … | op | op …     → results of the ops joined by ` | `
+        ops:  u <i> k=v …   update instance i        → ok | err Kind
+              m <i> <j,k,…> merge_state              → ok | err Kind
+              o <i>         compute                  → ok <values> | err Kind
+              r <i>         reset                    → ok
+              c <i> <j>     instance j := copy of i  → ok
+        instances are numbered from 0 and created fresh on first use.
   `bad` is a protocol/adapter problem (never a modelled outcome).
 -/
 import TE.Driver.Proto
+import TE.Driver.Fam
 import TE.Driver.Count
+import TE.Driver.Agg
+import TE.Driver.Curve
+import TE.Driver.Binned
+import TE.Driver.Rank
+import TE.Driver.Text
+import TE.Driver.Window
 open TE TE.Driver
 
-def allFns : List (String × (Args → RS)) := countFns
+def allFams : List (String × String × (Args → Except String Fam)) :=
+  countFams ++ aggFams ++ curveFams ++ binnedFams ++ rankFams ++ textFams ++ windowFams
+
+def allPacks : List (String × (Args → Except String Pack)) :=
+  aggPacks ++ curvePacks ++ binnedPacks ++ rankPacks ++ textPacks ++ windowPacks
+
+def allFns : List (String × (Args → Except Err String)) :=
+  aggFns ++ curveFns ++ binnedFns ++ rankFns ++ textFns ++ windowFns
+
+def findFn (name : String) : Option (Args → Except String Fam) :=
+  (allFams.find? (·.1 = name)).map (·.2.2)
+
+def findClass (name : String) (cfg : Args) : Except String Pack :=
+  match allPacks.find? (·.1 = name) with
+  | some (_, mk) => mk cfg
+  | none =>
+    match allFams.find? (·.2.1 = name) with
+    | some (_, _, mk) =>
+      match mk cfg with
+      | .ok f => .ok f.pack
+      | .error m => .error m
+    | none => .error s!"unknown class {name}"
+
+def showRes (r : Except Err String) : String :=
+  match r with
+  | .ok s => if s = "" then "ok" else s!"ok {s}"
+  | .error e => errOut e
+
+def toks (s : String) : List String := (s.trimAscii.toString.splitOn " ").filter (· ≠ "")
+
+def getInst {S} (tbl : Array S) (init : S) (i : Nat) : Array S × S :=
+  if h : i < tbl.size then (tbl, tbl[i]) else
+    let tbl' := tbl ++ Array.replicate (i + 1 - tbl.size) init
+    (tbl', init)
+
+def runOps (p : Pack) (ops : List String) : List String := Id.run do
+  let mut tbl : Array p.S := #[]
+  let mut outs : List String := []
+  for op in ops do
+    match toks op with
+    | "u" :: i :: rest =>
+      match i.toNat?, parseArgs rest with
+      | some i, .ok a =>
+        let (t, s) := getInst tbl p.impl.init i
+        match p.impl.upd s a with
+        | .ok s' => tbl := t.set! i s'; outs := "ok" :: outs
+        | .error e => tbl := t; outs := errOut e :: outs
+      | _, _ => outs := "bad update op" :: outs
+    | ["m", i, js] =>
+      match i.toNat?, (js.splitOn ",").mapM String.toNat? with
+      | some i, some js =>
+        let (t, s) := getInst tbl p.impl.init i
+        let mut t := t
+        let mut srcs : List p.S := []
+        for j in js do
+          let (t', sj) := getInst t p.impl.init j
+          t := t'; srcs := srcs ++ [sj]
+        match p.impl.mrg s srcs with
+        | .ok s' => tbl := t.set! i s'; outs := "ok" :: outs
+        | .error e => tbl := t; outs := errOut e :: outs
+      | _, _ => outs := "bad merge op" :: outs
+    | ["m", i] =>
+      match i.toNat? with
+      | some i =>
+        let (t, s) := getInst tbl p.impl.init i
+        match p.impl.mrg s [] with
+        | .ok s' => tbl := t.set! i s'; outs := "ok" :: outs
+        | .error e => tbl := t; outs := errOut e :: outs
+      | none => outs := "bad merge op" :: outs
+    | ["o", i] =>
+      match i.toNat? with
+      | some i =>
+        let (t, s) := getInst tbl p.impl.init i
+        tbl := t; outs := showRes (p.impl.out s) :: outs
+      | none => outs := "bad out op" :: outs
+    | ["r", i] =>
+      match i.toNat? with
+      | some i =>
+        let (t, _) := getInst tbl p.impl.init i
+        tbl := t.set! i p.impl.init; outs := "ok" :: outs
+      | none => outs := "bad reset op" :: outs
+    | ["c", i, j] =>
+      match i.toNat?, j.toNat? with
+      | some i, some j =>
+        let (t, s) := getInst tbl p.impl.init i
+        let (t, _) := getInst t p.impl.init j
+        tbl := t.set! j s; outs := "ok" :: outs
+      | _, _ => outs := "bad copy op" :: outs
+    | _ => outs := s!"bad op '{op}'" :: outs
+  return outs.reverse
 
 def handle (line : String) : String :=
-  match (line.trimAscii.toString.splitOn " ").filter (· ≠ "") with
+  match toks line with
   | "fn" :: name :: rest =>
-    match allFns.find? (·.1 = name) with
-    | none => s!"bad unknown function {name}"
-    | some (_, f) =>
+    match findFn name with
+    | none =>
+      match allFns.find? (·.1 = name), parseArgs rest with
+      | some (_, f), .ok a => showRes (f a)
+      | none, _ => s!"bad unknown function {name}"
+      | _, .error m => s!"bad {m}"
+    | some mk =>
       match parseArgs rest with
       | .error m => s!"bad {m}"
       | .ok a =>
-        match f a with
+        match mk a with
         | .error m => s!"bad {m}"
-        | .ok (.error e) => errOut e
-        | .ok (.ok s) => s!"ok {s}"
+        | .ok fam => showRes (fam.fn a)
+  | "prog" :: cls :: _ =>
+    match line.splitOn "|" with
+    | hd :: ops =>
+      match parseArgs ((toks hd).drop 2) with
+      | .error m => s!"bad {m}"
+      | .ok cfg =>
+        match findClass cls cfg with
+        | .error m => s!"bad {m}"
+        | .ok p => " | ".intercalate (runOps p ops)
+    | [] => "bad empty prog"
   | "ping" :: _ => "pong"
   | [] => "bad empty"
   | c :: _ => s!"bad unknown command {c}"
